@@ -244,6 +244,10 @@ def leaves(spec):
     return [spec]
 
 
+def view_dim(view):
+    return len(view['best'])
+
+
 def doc_of(spec):
     return build(spec).__doc__
 
@@ -375,6 +379,22 @@ def run_case(cls, idx, rng, obs):
         spec = gen_tree(rng, view, rng.randint(0, 3))
         obs.desc['tree'] = spec
         cond = build(spec)
+        if rng.random() < 0.4:
+            # conditions with MUTABLE settings (masks, per-parameter tolerances) inside the tree: what state() hands out is the caller's to edit -
+            # the condition's own reported state must not follow such edits
+            import copy, mystic.termination as mt
+            extra = rng.choice([mt.CollapseAt(0.0, tolerance=1e-3, generations=3, mask={0}), mt.CollapseAs(False, tolerance=1e-3, generations=3, mask={(0, 1)})])
+            cond = mt.Or(cond, extra) if rng.random() < 0.5 else mt.And(extra, cond)
+            st1 = copy.deepcopy(mt.state(cond))
+            handed = mt.state(cond)
+            for v in handed.values():
+                for kk, vv in list(v.items()):
+                    if isinstance(vv, set): vv.add(7 if not vv or not isinstance(next(iter(vv)), tuple) else (5, 7))
+                    elif isinstance(vv, list): vv.append(123.0)
+                    elif isinstance(vv, dict): vv['edited'] = True
+            st2 = mt.state(cond)
+            obs.check(st2 == st1, 'rebuild:the reported state is the condition\'s own (editing an earlier report does not change it)', before=str(st1)[:300], after=str(st2)[:300])
+            obs.event('state_aliasing_probes')
         try:
             again = rebuild(cond)
         except Exception as e:
